@@ -156,16 +156,18 @@ theorem C08_parent_nearest (G : Graph) (hac : Acyclic G) (ctx : Ctx) (cur : Name
     exact walkTag_complete G hac.1 (declAny m) p.name p a (b, x) hp h
 
 /-- The class `parent::` is resolved against is the class the code was written in: in a body entered by
-`$o->m()` it is the class the parser recorded (provided it is registered and has a parent), in a body entered
-through `parent::` it is the class the running method was found in — never the runtime class of the object. -/
+`$o->m()` it is the class the running method was found in (recorded in `SelfClass` on entry), in a body
+entered through `parent::` likewise — never the runtime class of the object, whatever the parser recorded.
+(Before the repair of the visibility checks a body entered by `$o->m()` carried no `SelfClass` and the
+parser's record was used, and only if that class was registered and had a parent: the second conjunct.) -/
 theorem C08_parent_base (G : Graph) (d k : Cls) (hk : Declared G k) (hext : k.ext.isSome = true) (ctx : Ctx) (f : Cls)
     (cur : Name) :
-    parentBase G (Ctx.ofObject d) k.name = k ∧ parentBase G (ctx.afterParent f) cur = f := by
-  constructor
-  · unfold parentBase Ctx.ofObject Declared at *
-    simp only
-    rw [hk]; simp [hext]
-  · rfl
+    parentBase G (Ctx.ofMethod d k) cur = k ∧ parentBase G (Ctx.ofObject d) k.name = k ∧
+      parentBase G (ctx.afterParent f) cur = f := by
+  refine ⟨rfl, ?_, rfl⟩
+  unfold parentBase Ctx.ofObject Declared at *
+  simp only
+  rw [hk]; simp [hext]
 
 /-- **`self::` binds to the defining class, `static::` to the class the context carries.**
 `self::s()` written in class `k` finds the most-derived static `s` at or above `k`, whatever the runtime class;
@@ -305,9 +307,11 @@ example : IsA exG exC 100 :=
     (IsA.impl (i := 102) (by decide) (IReach.step (d := ⟨102, [101, 100], [⟨1, 0⟩]⟩) (by decide) (by decide : 100 ∈ [101, 100]) (IReach.refl 100)))
 -- dispatch: `$c->m0()` runs B::m0 (arity 2), `parent::m0()` written in B runs A::m0
 example : getMethod exG exC 0 = .found (false, exB, ⟨0, 2⟩) := by decide
-example : parentCall exG (Ctx.ofObject exC) 11 0 = .found (exA, false, ⟨0, 1⟩) := by decide
+example : parentCall exG (Ctx.ofMethod exC exB) 11 0 = .found (exA, false, ⟨0, 1⟩) := by decide
+-- `parent::` written in A (no parent) and inherited by C: nothing above A, whatever the object's class
+example : parentCall exG (Ctx.ofMethod exC exA) 10 0 = .absent := by decide
 -- the hypotheses of `C08_parent_nearest` on that call: code written in B (11), B's parent is the declared class A
-example : parentBase exG (Ctx.ofObject exC) 11 = exB ∧ exB.ext = some exA.name ∧ Declared exG exA := by
+example : parentBase exG (Ctx.ofMethod exC exB) 11 = exB ∧ exB.ext = some exA.name ∧ Declared exG exA := by
   refine ⟨by decide, rfl, ?_⟩; unfold Declared; decide
 example : MostDerived exG (declAny 0) exA exA (false, ⟨0, 1⟩) := ⟨[], AncVia.self exA, by decide, by simp⟩
 example : MostDerived exG (declInst 1) exC exA ⟨1, 0⟩ :=
